@@ -499,6 +499,8 @@ def check_op(ctx, rep, F, op, rules, only_mut=None, mode="struct"):
                 if p.result[0] not in ("ret", "cut"):
                     continue
                 check_arm(rep, F, rules, op, it_short, kind, p, info["mut"], info["lpm"], mode)
+                if mode == "struct" and rules.get("partition"):
+                    check_partition(rep, F, rules["partition"], op, it_short, kind, p, info["lpm"])
                 n += 1
     return n
 
@@ -613,3 +615,73 @@ def check_item_accessors(ctx, rep, F, rule, names):
                 rep.bad(rule, short, "%s:wrong" % key, "%s on a %s item must return %s, it returns %s" % (short, key, want, got), config=F.config)
             else:
                 rep.ok(rule, short, key)
+
+
+# ---------------------------------------------------------------- independent of the tables: nothing is lost, nothing is visited twice
+def entry_nodes(op, e_str):
+    """(kind, [left-table nodes], [right-table nodes]) of a printed stack entry"""
+    import re
+    m = re.match(r"\w+::(\w+)\{(.*)\}", e_str)
+    if not m:
+        return None
+    v, args = m.group(1), [a.strip() for a in m.group(2).split(",")]
+    names = OPS[op]["names"]
+    kind = [k for k, n in names.items() if n == v]
+    if not kind:
+        return None
+    kind = kind[0]
+    if kind in ("both", "fl", "fr"):
+        return kind, [args[0]], [args[1]]
+    if kind == "ol":
+        return kind, [args[0]], []
+    return kind, [], [args[0]]
+
+
+def check_partition(rep, F, rule, op, it_short, kind, p, lpm):
+    """Semantic step rule that does not use the specification tables: after one arm, the nodes still to be visited are the children
+    of the node(s) the arm consumed plus the operand it did not consume.  Every such node of a side the operation must not lose
+    (left: always; right: union only) appears in exactly one pushed entry, and no node is pushed twice — except under the
+    covering prune (right node valued)."""
+    f = PF(p)
+    names = OPS[op]["names"]
+    where = "%s[%s]" % (it_short, names[kind])
+    ins = C.inputs_str(p, 14)
+    try:
+        consumed_l = kind in ("both", "fl", "ol")
+        consumed_r = kind in ("both", "fr", "orr")
+        rem_l, rem_r = [], []
+        if kind in ("both", "fl", "fr", "ol"):
+            if consumed_l:
+                rem_l += [c for c in (f.child(f.tl, "l", "left"), f.child(f.tl, "l", "right")) if c]
+            else:
+                rem_l.append("l")
+        if kind in ("both", "fl", "fr", "orr"):
+            if consumed_r:
+                rem_r += [c for c in (f.child(f.tr, "r", "left"), f.child(f.tr, "r", "right")) if c]
+            else:
+                rem_r.append("r")
+        if op == "covering" and kind in ("both", "fr") and f.valued(f.tr, "r"):
+            return      # covered: the whole left sub-tree is skipped by definition
+    except Missing:
+        return          # reported by the table comparison as an unjustified decision
+    got_l, got_r = [], []
+    for e, _, _ in pushes_of(p, lpm):
+        en = entry_nodes(op, e)
+        if en is None:
+            continue
+        got_l += en[1]
+        got_r += en[2]
+    dup = [x for x in set(got_l) if got_l.count(x) > 1] + [x for x in set(got_r) if got_r.count(x) > 1]
+    if dup:
+        rep.bad(rule, where, "visited-twice", "%s pushes node(s) %s in more than one entry: their entries would be yielded twice (inputs: %s)" % (where, dup, ins), config=F.config)
+        return
+    lost_l = [x for x in rem_l if x not in got_l]
+    lost_r = [x for x in rem_r if x not in got_r] if op == "union" else []
+    if op == "intersection":
+        lost_l = []         # pruning non-overlapping pairs is the operation; justified by the table rule
+    if lost_l or lost_r:
+        rep.bad(rule, where, "lost-subtree", "%s: after this step the nodes %s (left) / %s (right) are still to be visited, but the pushed entries "
+                "%s do not mention %s: their entries would never be yielded (inputs: %s)"
+                % (where, rem_l, rem_r, [x[0] for x in pushes_of(p, lpm)], lost_l + lost_r, ins), config=F.config)
+    else:
+        rep.ok(rule, where, "nothing lost, nothing twice")
